@@ -61,7 +61,7 @@ def run(ctx):
         raise AnalysisError('monochromatic: window-to-index definitions not found')
     env = {'__module__': mod, nw_name[0]: scalar(alg.count(N), num(1)), wl_name[0]: symarr('wl', (N,), unit=unit_atom('micron')),
            'wav_max': scalar(sym('wmax'), unit_atom('micron')), 'wav_min': scalar(sym('wmin'), unit_atom('micron'))}
-    rev = mk_fn('rev', B(N, sym('wl', N)))
+    rev = alg.array_fn('rev', N, sym('wl', N))
     n = alg.count(N)
     want = {'jlo': n - mk_fn('searchsorted', B(N, rev), P(sym('wmax'))), 'jhi': n - 1 - mk_fn('searchsorted', B(N, rev), P(sym('wmin')))}
     jlo_name, jhi_name = lo_def[0][0], hi_def[0][0]
